@@ -8,6 +8,7 @@ adjacent `*v` of one spine becomes one column, `*-` ends a column) does — for 
 any length in the same row.
 -/
 import PartituraModel.Model.Kern
+import PartituraModel.Proofs.C19KernPbv
 
 set_option linter.unusedSimpArgs false
 
@@ -166,5 +167,256 @@ example : pathOut [(⟨0, true, 0, 1⟩, 0), (⟨0, true, 0, 1⟩, 1), (⟨0, tr
 example : (interpRow { cols := [], same := false } [(⟨0, true, 0, 1⟩, 0), (⟨0, true, 0, 1⟩, 1), (⟨0, true, 0, 1⟩, 2), (⟨1, true, 0, 1⟩, 0)]
       ["*v".toList, "*v".toList, "*v".toList, "*".toList] [] false).map (fun r => r.2.map (·.main)) = some [0, 1] := by
   decide +kernel
+
+/-! ### which spine every column belongs to, and the importer's bookkeeping (`importkern.parse_by_voice`) -/
+
+/-- `kern_paths_mains`: the number of columns `pathOut` counts is the length of the list of their spines -/
+theorem kern_paths_mains (cp : List (Col × Nat)) (row : List (List Char)) (prev : Option Nat) :
+    (Pbv.mainsOut cp row prev).length = pathOut cp row prev := by
+  induction cp generalizing row prev with
+  | nil => simp [Pbv.mainsOut, pathOut]
+  | cons x cs ih =>
+    obtain ⟨c, p⟩ := x
+    cases row with
+    | nil => simp [Pbv.mainsOut, pathOut]
+    | cons cell cells =>
+      simp only [Pbv.mainsOut, pathOut]
+      by_cases h1 : cell = "*^".toList
+      · simp only [eq_true h1, if_true, List.length_cons, ih]; omega
+      · by_cases h2 : cell = "*v".toList
+        · simp only [eq_false h1, eq_true h2, if_true, if_false, List.length_append, ih]
+          by_cases hp : prev = some c.main
+          · simp [hp]
+          · simp [hp]
+        · by_cases h3 : cell = "*-".toList
+          · simp only [eq_false h1, eq_false h2, eq_true h3, if_true, if_false, ih]
+          · simp only [eq_false h1, eq_false h2, eq_false h3, if_false, List.length_cons, ih]; omega
+
+/-- `kern_columns_after_row`: after an accepted row of interpretations every column belongs to the spine the
+    semantics' rule names — two columns of its spine for a `*^`, one for a run of `*v` of one spine, none for `*-`,
+    the column itself otherwise — in document order; tandem interpretations never move a column to another spine. -/
+theorem kern_columns_after_row (st : St) (cp : List (Col × Nat)) (row : List (List Char)) (st' : St) (cols' : List Col)
+    (h : interpRow st cp row [] false = some (st', cols')) :
+    cols'.map (·.main) = Pbv.mainsOut cp row none := by
+  have := Pbv.interpRow_mains st cp row [] false st' cols' (by simp) h
+  simpa using this
+
+theorem pbvJoins_eq (row : List (List Char)) (b : Bool) : pbvJoins row b = countJoins row b := by
+  induction row generalizing b with
+  | nil => rfl
+  | cons cell cells ih => simp only [pbvJoins, countJoins, ih]
+
+/-- `parse_by_voice_first_spine`: the importer's arithmetic is the semantics for the spine it is cutting out.  When the
+    first `pre.length` columns are exactly the columns of spine `m` (what `parse_by_voice` assumes: the spines before it
+    have been popped) and the row does not end a column of that spine, then after any accepted row of interpretations
+    the columns of `m` are again exactly the leading block, and `voices + splits - joins` (Model/KernPbv.lean `pbvStep`,
+    the loop body as written) is its length — any number of splits and joins of any length in the row, whatever the
+    other spines do in the same row. -/
+theorem parse_by_voice_first_spine (m : Nat) (st : St) (pre post : List (Col × Nat)) (rpre rpost : List (List Char))
+    (st' : St) (cols' : List Col)
+    (hpre : ∀ x ∈ pre, x.1.main = m) (hpost : ∀ x ∈ post, x.1.main ≠ m) (hl : pre.length = rpre.length)
+    (hends : ∀ cell ∈ rpre, cell ≠ "*-".toList)
+    (h : interpRow st (pre ++ post) (rpre ++ rpost) [] false = some (st', cols')) :
+    ∃ pre' post', cols' = pre' ++ post' ∧ (∀ c ∈ pre', c.main = m) ∧ (∀ c ∈ post', c.main ≠ m) ∧
+      pbvStep pre.length (rpre ++ rpost) = some pre'.length := by
+  have hmains := kern_columns_after_row st _ _ st' cols' h
+  rw [Pbv.mainsOut_append pre post rpre rpost none hl] at hmains
+  have hB : Pbv.mainsOut post rpost (Pbv.prevAfter pre rpre none) = Pbv.mainsOut post rpost none := by
+    rcases Pbv.prevAfter_cases m pre rpre none hpre (Or.inl rfl) with e | e
+    · rw [e]
+    · rw [e]
+      apply Pbv.mainsOut_prev_irrel
+      intro x hx
+      exact hpost x (List.mem_of_mem_head? hx)
+  rw [hB] at hmains
+  obtain ⟨h1, h2⟩ := Pbv.split_of_map_eq_append (·.main) cols' _ _ hmains
+  have hA := Pbv.mainsOut_all (· = m) pre rpre none hpre
+  have hBn := Pbv.mainsOut_all (· ≠ m) post rpost none hpost
+  refine ⟨cols'.take (Pbv.mainsOut pre rpre none).length, cols'.drop (Pbv.mainsOut pre rpre none).length,
+    (List.take_append_drop _ _).symm, ?_, ?_, ?_⟩
+  · intro c hc
+    apply hA
+    rw [← h1]
+    exact List.mem_map_of_mem hc
+  · intro c hc
+    apply hBn
+    rw [← h2]
+    exact List.mem_map_of_mem hc
+  · have hlen : (cols'.take (Pbv.mainsOut pre rpre none).length).length = (Pbv.mainsOut pre rpre none).length := by
+      have := congrArg List.length h1
+      simpa using this
+    have hw := kern_spine_width m pre rpre false hpre hl
+    have he : countEnds rpre = 0 := by
+      unfold countEnds
+      rw [List.length_eq_zero_iff, List.filter_eq_nil_iff]
+      intro cell hc
+      simpa using hends cell hc
+    have htake : (rpre ++ rpost).take pre.length = rpre := by rw [hl]; simp
+    have hnl : ¬ (rpre ++ rpost).length < pre.length := by simp [hl]
+    simp only [pbvStep, hnl, if_false, htake, hlen, Option.some.injEq, pbvJoins_eq, pbvSplits]
+    rw [kern_paths_mains]
+    simp only [Bool.false_eq_true, if_false] at hw
+    unfold countSplits at hw
+    omega
+
+/-- `parse_by_voice_step`: the same through `Model.Kern.step`, the function the semantics runs on every row of a document:
+    if the columns of the state are the columns of spine `m` followed by columns of other spines, an accepted row of
+    interpretations (one that ends no column of `m`) leaves the state in the same shape, and the importer's
+    `voices + splits - joins` is the new number of columns of `m`. -/
+theorem parse_by_voice_step (m : Nat) (st st' : St) (pre post : List Col) (first : List Char) (rest : List (List Char))
+    (hcols : st.cols = pre ++ post) (hpre : ∀ c ∈ pre, c.main = m) (hpost : ∀ c ∈ post, c.main ≠ m)
+    (hstar : startsWith first "*" = true)
+    (hends : ∀ cell ∈ (first :: rest).take pre.length, cell ≠ "*-".toList)
+    (h : step st (first :: rest) = some st') :
+    ∃ pre' post', st'.cols = pre' ++ post' ∧ (∀ c ∈ pre', c.main = m) ∧ (∀ c ∈ post', c.main ≠ m) ∧
+      pbvStep pre.length (first :: rest) = some pre'.length := by
+  have hb := Pbv.startsWith_star_not_bang first hstar
+  simp only [step, hb, hstar, if_true, if_false, Bool.false_eq_true] at h
+  by_cases hlen : (first :: rest).length ≠ st.cols.length
+  · exfalso
+    simp only [List.length_cons] at hlen
+    simp only [List.length_cons, hlen, if_true, reduceCtorEq, ne_eq, not_false_eq_true] at h
+  · simp only [hlen, if_false] at h
+    have hlen' : (first :: rest).length = st.cols.length := by simpa using hlen
+    cases hi : interpRow { st with widths := updWidths st.widths (withPos st.cols) } (withPos st.cols) (first :: rest) [] false with
+    | none => simp [hi] at h
+    | some r =>
+      obtain ⟨st2, cols2⟩ := r
+      simp only [hi, Option.map_some, Option.some.injEq] at h
+      have hfst : (withPos st.cols).map Prod.fst = pre ++ post := by rw [withPos, Pbv.withPosAux_fst, hcols]
+      have hwl : (withPos st.cols).length = pre.length + post.length := by
+        have := congrArg List.length hfst; simpa using this
+      obtain ⟨hp1, hp2⟩ := Pbv.split_of_map_eq_append Prod.fst (withPos st.cols) pre post hfst
+      have hrl : (first :: rest).length = pre.length + post.length := by rw [hlen', hcols]; simp
+      have hi' : interpRow { st with widths := updWidths st.widths (withPos st.cols) }
+          ((withPos st.cols).take pre.length ++ (withPos st.cols).drop pre.length)
+          ((first :: rest).take pre.length ++ (first :: rest).drop pre.length) [] false = some (st2, cols2) := by
+        rw [List.take_append_drop, List.take_append_drop]; exact hi
+      have := parse_by_voice_first_spine m _ _ _ _ _ st2 cols2
+        (by intro x hx; apply hpre; rw [← hp1]; exact List.mem_map_of_mem hx)
+        (by intro x hx; apply hpost; rw [← hp2]; exact List.mem_map_of_mem hx)
+        (by rw [List.length_take, List.length_take]; omega)
+        hends hi'
+      obtain ⟨pre', post', e1, e2, e3, e4⟩ := this
+      refine ⟨pre', post', ?_, e2, e3, ?_⟩
+      · rw [← h]; exact e1
+      · rw [List.take_append_drop] at e4
+        have : ((withPos st.cols).take pre.length).length = pre.length := by rw [List.length_take]; omega
+        rw [this] at e4
+        exact e4
+
+/-- non-vacuity: a spine of three sub-spines next to another spine; `*^ *v *v` leaves three columns of spine 0 -/
+example : (interpRow { cols := [], same := false }
+      ([(⟨0, true, 0, 1⟩, 0), (⟨0, true, 0, 1⟩, 1), (⟨0, true, 0, 1⟩, 2)] ++ [(⟨1, true, 0, 1⟩, 0)])
+      (["*^".toList, "*v".toList, "*v".toList] ++ ["*v".toList]) [] false).map (fun r => r.2.map (·.main)) = some [0, 0, 0, 1] ∧
+    pbvStep 3 (["*^".toList, "*v".toList, "*v".toList] ++ ["*v".toList]) = some 3 := by decide +kernel
+
+/-- rows the document theorem speaks about: a row of interpretations ends no column, any other row (data, barlines)
+    holds no spine-path cell (the semantics ignores or refuses those, the importer's arithmetic would count them) -/
+def CleanRow (row : List (List Char)) : Prop :=
+  match row with
+  | [] => True
+  | first :: _ =>
+    if startsWith first "*" = true then ∀ cell ∈ row, cell ≠ "*-".toList
+    else ∀ cell ∈ row, cell ≠ "*^".toList ∧ cell ≠ "*v".toList
+
+theorem parse_by_voice_document (m : Nat) (rows : List (List (List Char))) (st : St) (pre post : List Col)
+    (tr : List (List Col))
+    (hcols : st.cols = pre ++ post) (hpre : ∀ c ∈ pre, c.main = m) (hpost : ∀ c ∈ post, c.main ≠ m)
+    (hclean : ∀ row ∈ rows, CleanRow row)
+    (h : colsTrace st rows = some tr) :
+    pbvTrace pre.length (pbvFile rows) = some (tr.map fun cols => countMain cols m) := by
+  induction rows generalizing st pre post tr with
+  | nil =>
+    simp only [colsTrace, Option.some.injEq] at h
+    subst h
+    simp [pbvFile, pbvTrace]
+  | cons r rs ih =>
+    have hclean' : ∀ row ∈ rs, CleanRow row := fun row hr => hclean row (List.mem_cons_of_mem _ hr)
+    simp only [colsTrace] at h
+    by_cases hs : isSkippable r = true
+    · simp only [hs, if_true] at h
+      have : pbvFile (r :: rs) = pbvFile rs := by simp [pbvFile, hs]
+      rw [this]
+      exact ih st pre post tr hcols hpre hpost hclean' h
+    · simp only [hs, if_false, Bool.false_eq_true] at h
+      have hfile : pbvFile (r :: rs) = r :: pbvFile rs := by
+        simp only [pbvFile, List.filter_cons]
+        simp [hs]
+      rw [hfile]
+      cases hst : step st r with
+      | none => simp [hst] at h
+      | some st1 =>
+        simp only [hst] at h
+        cases htr : colsTrace st1 rs with
+        | none => simp [htr] at h
+        | some tr1 =>
+          simp only [htr, Option.map_some, Option.some.injEq] at h
+          subst h
+          cases r with
+          | nil => simp [isSkippable] at hs
+          | cons first rest =>
+            have hbang : startsWith first "!" = false := by simpa [isSkippable] using hs
+            have hcr := hclean (first :: rest) (by simp)
+            simp only [CleanRow] at hcr
+            by_cases hstar : startsWith first "*" = true
+            · simp only [hstar, if_true] at hcr
+              obtain ⟨pre', post', e1, e2, e3, e4⟩ := parse_by_voice_step m st st1 pre post first rest hcols hpre hpost hstar
+                (fun cell hc => hcr cell (List.mem_of_mem_take hc)) hst
+              have := ih st1 pre' post' tr1 e1 e2 e3 hclean' htr
+              simp only [pbvTrace, e4, this, Option.map_some, List.map_cons, hcols, Pbv.countMain_block m pre post hpre hpost]
+            · simp only [hstar, if_false, Bool.false_eq_true] at hcr
+              have hstar' : startsWith first "*" = false := by simpa using hstar
+              obtain ⟨hm, hl⟩ := Pbv.step_other_mains st st1 first rest hstar' hst
+              have hl' := hl hbang
+              rw [hcols, List.map_append] at hm
+              obtain ⟨h1, h2⟩ := Pbv.split_of_map_eq_append (·.main) st1.cols _ _ hm
+              have hk : pre.length ≤ (first :: rest).length := by rw [hl', hcols]; simp
+              have e4 := Pbv.pbvStep_clean pre.length (first :: rest) hk hcr
+              have hplen : (st1.cols.take (pre.map (·.main)).length).length = pre.length := by
+                have := congrArg List.length h1; simpa using this
+              have := ih st1 (st1.cols.take (pre.map (·.main)).length) (st1.cols.drop (pre.map (·.main)).length) tr1
+                (List.take_append_drop _ _).symm
+                (by
+                  intro c hc
+                  have : c.main ∈ pre.map (·.main) := by rw [← h1]; exact List.mem_map_of_mem hc
+                  obtain ⟨c0, hc0, e⟩ := List.mem_map.1 this
+                  rw [← e]; exact hpre c0 hc0)
+                (by
+                  intro c hc
+                  have : c.main ∈ post.map (·.main) := by rw [← h2]; exact List.mem_map_of_mem hc
+                  obtain ⟨c0, hc0, e⟩ := List.mem_map.1 this
+                  rw [← e]; exact hpost c0 hc0)
+                hclean' htr
+              rw [hplen] at this
+              simp only [pbvTrace, e4, this, Option.map_some, List.map_cons, hcols, Pbv.countMain_block m pre post hpre hpost]
+
+/-- `parse_by_voice_first_call`: the first call of `parse_by_voice` on a document (header `h0 :: hs`, then `rest`): the
+    number of cells it takes from every row that is not a comment is the number of columns the semantics gives the
+    leftmost spine in front of that row — for every document of clean rows the semantics accepts, whatever is split and
+    joined, in this spine or the others. -/
+theorem parse_by_voice_first_call (h0 : List Char) (hs : List (List Char)) (rest : List (List (List Char))) (same : Bool)
+    (tr : List (List Col)) (hclean : ∀ row ∈ rest, CleanRow row)
+    (h : colsTrace { cols := initCols (h0 :: hs) 0, same := same } rest = some tr) :
+    pbvTrace 1 (pbvFile rest) = some (tr.map fun cols => countMain cols 0) := by
+  have := parse_by_voice_document 0 rest { cols := initCols (h0 :: hs) 0, same := same }
+    [{ main := 0, kern := startsWith h0 "**kern" || startsWith h0 "**notes", cursor := 0, staff := 1 }] (initCols hs 1) tr
+    (by simp [initCols]) (by simp)
+    (by intro c hc; have := Pbv.initCols_mains_ge hs 1 c hc; omega) hclean h
+  simpa using this
+
+
+/-- non-vacuity: two spines, the left one split, a barline, joined again: clean rows, accepted, the trace is 1, 2, 2 -/
+example : (∀ row ∈ [["*^".toList, "*".toList], ["=1".toList, "=1".toList, "=1".toList], ["*v".toList, "*v".toList, "*".toList]],
+      CleanRow row) ∧
+    (colsTrace { cols := initCols ["**kern".toList, "**kern".toList] 0, same := false }
+      [["*^".toList, "*".toList], ["=1".toList, "=1".toList, "=1".toList], ["*v".toList, "*v".toList, "*".toList]]).map
+        (fun tr => tr.map fun cols => countMain cols 0) = some [1, 2, 2] ∧
+    pbvTrace 1 [["*^".toList, "*".toList], ["=1".toList, "=1".toList, "=1".toList], ["*v".toList, "*v".toList, "*".toList]]
+      = some [1, 2, 2] := by
+  refine ⟨?_, by decide +kernel, by decide +kernel⟩
+  intro row hr
+  simp only [List.mem_cons, List.not_mem_nil, or_false] at hr
+  rcases hr with rfl | rfl | rfl <;> simp only [CleanRow] <;> decide +kernel
 
 end C19
